@@ -16,7 +16,7 @@ STUBS = ["pysam.AlignmentFile.pileup(**kwargs) -> contract stub: honours exactly
          "pysam.FastaFile.fetch -> the reference string; numba.vectorize / guvectorize -> numpy.vectorize of the same Python kernels"]
 ASSUMES = ["depth obligation: reads are symbolic (flags, MAPQ, base); the expected depth is a z3 term over all read variables and the four filter options",
            "threshold obligations: write_vcf_block is numpy/pandas string code (C boundary): depths and thresholds are solver-enumerated over a finite grid and the emitted lines compared with an independent oracle"]
-BOUNDS = {"quick": "depths: 2 reads x 1 position x 1 sample, all flag/MAPQ/base combinations, 4 option settings; thresholds: 1 site x 2 samples x counts in {0,1,3} for A,C,G, 8 threshold settings",
+BOUNDS = {"quick": "depths: 2 reads x 1 position x 1 sample, all flag/MAPQ/base combinations, 6 option settings (each keep flag toggled alone at least once); thresholds: 1 site x 2 samples x counts in {0,1,3} for A,C,G, 8 threshold settings",
           "thorough": "depths: 3 reads; thresholds: 32 threshold settings, counts in {0,1,2,4}"}
 OUTSIDE = "htslib's pileup engine (overlap detection, base-quality and orphan handling are only modelled as documented defaults); text rendering of AD/ADMF numbers"
 TASKS_PER_CHILD = 2
@@ -27,7 +27,7 @@ PYSAM_PILEUP_KW = {"truncate", "max_depth", "stepper", "fastafile", "ignore_over
 
 def configs(tier):
     out = []
-    for opts in ([(0, True, True, True), (1, True, True, True), (1, False, False, False), (2, True, False, True)] if tier == "quick"
+    for opts in ([(0, True, True, True), (1, True, True, True), (1, False, False, False), (2, True, False, True), (0, True, True, False), (0, False, True, True)] if tier == "quick"
                  else [(q, a, b, c_) for q in (0, 1, 2) for a in (True, False) for b in (True, False) for c_ in (True, False)]):
         out.append(dict(group="depth", k=2 if tier == "quick" else 3, opts=list(opts)))
     grid = [dict(ind_maf=a, ind_mad=b, min_ind=c_, maf=d, mad=e) for a in (0.0, 0.3) for b in (0, 2) for c_ in (1, 2) for d in (0.0, 0.3) for e in (0, 3)]
